@@ -71,6 +71,8 @@ pub enum ArrOp {
     ReadItem(Idx),
     Last,
     Iter(u8),
+    /// after `.0` calls of next(): `.1` selects nth / skip / step_by / last / count with argument `.2`
+    IterAdapt(u8, u8, u8),
     IterRes,
     ToVec,
     ReadToVec,
@@ -151,6 +153,7 @@ fn arr_op() -> impl Strategy<Value = ArrOp> {
         3 => idx().prop_map(ArrOp::ReadItem),
         1 => Just(ArrOp::Last),
         2 => (0u8..6).prop_map(ArrOp::Iter),
+        2 => (0u8..5, 0u8..5, 0u8..6).prop_map(|(k, kind, a)| ArrOp::IterAdapt(k, kind, a)),
         1 => Just(ArrOp::IterRes),
         1 => Just(ArrOp::ToVec),
         1 => Just(ArrOp::ReadToVec),
@@ -491,6 +494,43 @@ where
                 let all: Vec<T::HostType> = got.into_iter().flatten().chain(rest).collect();
                 if all != model {
                     return Err(fail("iter", format!("{} iter yields {:?}, expected {:?}", name, all, model)));
+                }
+            }
+            ArrOp::IterAdapt(k, kind, a) => {
+                // the iterator adaptors of std (nth, skip, step_by, last, count) on a partially
+                // consumed iterator must behave like the same adaptors on the rest of the window
+                let k = (*k as usize).min(n);
+                let a = *a as usize;
+                let mut it = arr.iter();
+                for _ in 0..k {
+                    it.next();
+                }
+                let rest = &model[k..];
+                let bound = n + 2; // a broken iterator must not run for ever
+                let (got, exp): (Vec<T::HostType>, Vec<T::HostType>) = match kind % 5 {
+                    0 => {
+                        let first = it.nth(a);
+                        let tail: Vec<T::HostType> = it.take(bound).collect();
+                        let mut m = rest.iter().copied();
+                        let mfirst = m.nth(a);
+                        if first != mfirst {
+                            return Err(fail("iter-nth", format!("{} after {} items nth({}) = {:?}, expected {:?}", name, k, a, first, mfirst)));
+                        }
+                        (tail, m.collect())
+                    }
+                    1 => (it.skip(a).take(bound).collect(), rest.iter().copied().skip(a).collect()),
+                    2 => (it.step_by(a + 1).take(bound).collect(), rest.iter().copied().step_by(a + 1).collect()),
+                    3 => (it.last().into_iter().collect(), rest.last().copied().into_iter().collect()),
+                    _ => {
+                        let c = it.take(bound).count();
+                        if c != rest.len() {
+                            return Err(fail("iter-count", format!("{} after {} items count() = {}, expected {}", name, k, c, rest.len())));
+                        }
+                        (Vec::new(), Vec::new())
+                    }
+                };
+                if got != exp {
+                    return Err(fail("iter-adaptor", format!("{} after {} items adaptor {} arg {} yields {:?}, expected {:?}", name, k, kind % 5, a, got, exp)));
                 }
             }
             ArrOp::IterRes => {
@@ -935,7 +975,13 @@ fn u_arr_op(u: &mut Unstructured) -> arbitrary::Result<ArrOp> {
         1 => ArrOp::GetItem(u_idx(u)?),
         2 => ArrOp::ReadItem(u_idx(u)?),
         3 => ArrOp::Last,
-        4 => ArrOp::Iter(u.int_in_range(0u8..=5)?),
+        4 => {
+            if u.arbitrary::<bool>()? {
+                ArrOp::Iter(u.int_in_range(0u8..=5)?)
+            } else {
+                ArrOp::IterAdapt(u.int_in_range(0u8..=4)?, u.int_in_range(0u8..=4)?, u.int_in_range(0u8..=5)?)
+            }
+        }
         5 => ArrOp::IterRes,
         6 => ArrOp::ToVec,
         7 => ArrOp::ReadToVec,
